@@ -24,6 +24,33 @@ def ok_parts(f, rv):
     return oks, errs
 
 
+def ctx_in_world_counts(W, nbytes, i_len, i_fid, frag_id):
+    """does world W hold a fragmentation context (an aggregate of three integers whose fragment id is the caller's) whose
+    length field equals nbytes?"""
+    def walk(v, depth=0):
+        if depth > 4:
+            return
+        if v[0] == 'agg':
+            if len(v[1]) == 3 and all(x[0] == 'int' for x in v[1]):
+                yield v
+            for x in v[1]:
+                yield from walk(x, depth + 1)
+        elif v[0] == 'enum':
+            for _, fs in v[1]:
+                for x in fs:
+                    yield from walk(x, depth + 1)
+    found = False
+    for root, v in W.mem.items():
+        if root[0] != 'L':
+            continue
+        for c in walk(v):
+            if W.store.entails_eq(c[1][i_fid][1], frag_id):
+                found = True
+                if not W.store.entails_eq(c[1][i_len][1], nbytes):
+                    return False
+    return found
+
+
 def rules(ck, P='C11'):
     f = ck.facts
     i_fid, i_crc, i_len = (field_index(f, CF, n) for n in ('frag_id', 'crc', 'len_pdu_frag'))
@@ -136,6 +163,10 @@ def rules(ck, P='C11'):
                         continue
                     # the context counts exactly the payload bytes of some pdu copy of this partition
                     if any(w.store.entails_eq(nl[1], x['len']) or x['W'].store.entails_eq(nl[1], x['len']) for x in wr):
+                        ck.discharged += 1
+                    elif wr and all(ctx_in_world_counts(x['W'], x['len'], i_len, i_fid, benv['frag_id']) for x in wr):
+                        # the returned context went through a merge of paths (its field is a join atom here); in every world that
+                        # copies payload the context already built there counts exactly the bytes being copied
                         ck.discharged += 1
                     else:
                         ck.finding(f'{P}.R2', ENC + wname, 'first-context', f"{wname}: context of the first fragment ({nl[1].pretty()}) is not the number of payload bytes written")
